@@ -189,12 +189,16 @@ type Unit struct {
 	implicitNonNil []string
 	nreturns   int
 	stale      []string
+	lastSortPi, lastSortInv string
 }
 
 type recorder struct {
 	vars  map[types.Object]bool
 	heaps map[string]bool
 	ghost map[string]bool
+	refs  map[string][]*Term // heap -> object refs written (when all writes are simple stores)
+	whole map[string]bool    // heap replaced wholesale
+	startSym int
 }
 
 func (e *Engine) fresh(base, srt string) *Term {
@@ -218,10 +222,27 @@ func (u *Unit) heapGet(st *State, name, srt string) *Term {
 }
 
 func (u *Unit) heapSet(st *State, name string, t *Term) {
-	st.heaps[name] = t
 	if u.recording != nil {
-		u.recording.heaps[name] = true
+		rec := u.recording
+		rec.heaps[name] = true
+		prev, ok := st.heaps[name]
+		if !ok {
+			prev = u.initHeap[name]
+		}
+		// peel store chain
+		cur := t
+		var refs []*Term
+		for cur != prev && cur.Op == "app" && cur.Name == "store" && len(cur.Args) == 3 {
+			refs = append(refs, cur.Args[1])
+			cur = cur.Args[0]
+		}
+		if cur == prev && prev != nil && rec.refs != nil {
+			rec.refs[name] = append(rec.refs[name], refs...)
+		} else if rec.whole != nil {
+			rec.whole[name] = true
+		}
 	}
+	st.heaps[name] = t
 }
 
 func (u *Unit) varSet(st *State, obj types.Object, t *Term) {
